@@ -629,6 +629,37 @@ func resultPropagated(c *ssa.Call) (bool, string) {
 	if !tested {
 		return false, "the error result is neither returned nor tested"
 	}
+	// "stops at once": nothing of the package is called between the call and the place its result is returned or tested
+	for _, ref := range refs {
+		var use ssa.Instruction
+		switch x := ref.(type) {
+		case *ssa.Return:
+			use = x
+		case *ssa.BinOp:
+			use = x
+		}
+		if use == nil || use.Block() != c.Block() {
+			continue
+		}
+		between := false
+		for _, in := range c.Block().Instrs {
+			if in == ssa.Instruction(c) {
+				between = true
+				continue
+			}
+			if in == use {
+				break
+			}
+			if !between {
+				continue
+			}
+			if c2, ok := in.(*ssa.Call); ok {
+				if callee := staticCallee(c2); (callee != nil && callee.Pkg == c.Parent().Pkg) || c2.Call.Value == c.Parent().Params[len(c.Parent().Params)-1] {
+					return false, "another walk or callback call is made before this result is looked at: the walk does not stop at once on an error"
+				}
+			}
+		}
+	}
 	return true, ""
 }
 
